@@ -1,8 +1,8 @@
 #!/bin/bash
 # tools/run_seeded.sh [ID ...]: runs the property's quick check against each kept seeded change
 # (scratch worktree, never /repo) and appends the outcome to seeded/RESULTS.md.
-cd /verif
+cd "$(dirname "$(readlink -f "$0")")/.."
 ids=("$@"); [[ ${#ids[@]} -eq 0 ]] && ids=($(ls seeded | grep '^C'))
 for id in "${ids[@]}"; do
-  tools/mutant.sh "seeded/$id/patch.diff" "${id%%-*}" --no-baseline 2>&1 | grep '^MUTANT' | sed "s#/verif/seeded/##; s#/patch.diff##" | while read -r l; do echo "- $(date -u +%H:%M) $l"; done | tee -a seeded/RESULTS.md
+  tools/mutant.sh "seeded/$id/patch.diff" "${id%%-*}" --no-baseline 2>&1 | grep '^MUTANT' | sed "s#[^ ]*/seeded/##; s#/patch.diff##" | while read -r l; do echo "- $(date -u +%H:%M) $l"; done | tee -a seeded/RESULTS.md
 done
